@@ -92,6 +92,20 @@ Theorem C06_app_judgement_transfer : forall sc t, JudgeC06P.profile_C06b sc = tr
 Proof. exact JudgeC06P.C06_app_judgement_transfer. Qed.
 
 
+(* ---- source tie, fifth wave (DESIGN 11.7): the registry construction side regenerated from src/input_context.rs:
+   ContextInstances::index and ContextInstances::add (existing group: push; new group: insertion at the position the search on
+   Reverse(priority) returns) equal Model/Registry.index_of and reg_add, Leibniz; the statements are those of Proofs/SrcTie5P.v ---- *)
+From BEI Require Generated.RegistrySrc Proofs.SrcTie5P.
+Theorem C06_source_registry_add : ltac:(let t := type of SrcTie5P.ContextInstances_add_tie in exact t).
+Proof. exact SrcTie5P.ContextInstances_add_tie. Qed.
+
+Theorem C06_source_registry_index : ltac:(let t := type of SrcTie5P.ContextInstances_index_tie in exact t).
+Proof. exact SrcTie5P.ContextInstances_index_tie. Qed.
+
+Theorem C06_source_registry_search : ltac:(let t := type of SrcTie5P.bsearch_tie in exact t).
+Proof. exact SrcTie5P.bsearch_tie. Qed.
+
+
 Print Assumptions C06_bsearch_position.
 Print Assumptions C06_insert_keeps_order.
 Print Assumptions C06_any_history.
@@ -107,3 +121,6 @@ Print Assumptions C06_frame_log_in_order.
 Print Assumptions C06_update_keeps_shape.
 Print Assumptions C06_app_judgement_sound.
 Print Assumptions C06_app_judgement_transfer.
+Print Assumptions C06_source_registry_add.
+Print Assumptions C06_source_registry_index.
+Print Assumptions C06_source_registry_search.
